@@ -93,6 +93,19 @@ func genStorageCase(r *rand.Rand, T int) *stCase {
 		}
 		c.levels[k], c.volumes[k], c.areas[k], c.minRel[k], c.maxRel[k] = lv, vol, ar, mn, mx
 	}
+	if r.Intn(4) == 0 && !stiffLong {
+		// a table that starts ABOVE empty (dead storage below the lowest surveyed point, outlets that already pass water
+		// there): below its first point every curve is held at its first value
+		dead := (0.05 + 0.2*r.Float64()) * c.volumes[n-1]
+		for k := range c.volumes {
+			c.volumes[k] += dead
+		}
+		base := 0.2 + r.Float64()
+		for k := range c.minRel {
+			c.minRel[k] += base
+			c.maxRel[k] += base + 1
+		}
+	}
 	full := c.volumes[n-1]
 	c.style = []string{"fill", "drawdown", "mixed", "quiet", "weir", "surcharged", "idle"}[r.Intn(7)]
 	if c.style == "idle" {
